@@ -32,6 +32,8 @@ namespace {
       std::function<long()> steps;                          // ++ from begin() until == end()
       std::function<std::vector<const void*>()> riter;      // --end() .. begin(), through operator->
       std::function<std::vector<const void*>()> post;       // it++ from begin()
+      std::function<std::vector<const void*>()> rpost;      // the value of it-- from the last position down to begin()
+      std::function<std::vector<bool>()> eqd, eqo, bend;    // iterator equality: same position, neighbouring positions, begin/end
       std::function<std::size_t()> hsize;                   // helper size (or size)
       std::function<const void*(std::size_t)> hat;          // helper operator[] (or at)
       std::map<const void*, int> ident;
@@ -63,6 +65,30 @@ namespace {
          std::vector<const void*> v;
          for (auto it = seq->begin(); it != seq->end() and v.size() < 10000; ) { auto old = it++; v.push_back(key(*old)); }
          return v;
+      };
+      sj.rpost = [seq, key] {
+         std::vector<const void*> v;
+         if (seq->size() == 0) return v;
+         auto it = seq->position(seq->size() - 1);
+         while (v.size() < 10000) {
+            if (it == seq->begin()) { v.push_back(key(*it)); break; }
+            auto old = it--;
+            v.push_back(key(*old));
+         }
+         return v;
+      };
+      sj.eqd = [seq] {
+         std::vector<bool> v;
+         for (std::size_t i = 0; i <= seq->size(); ++i) v.push_back(seq->position(i) == seq->position(i) and not (seq->position(i) != seq->position(i)));
+         return v;
+      };
+      sj.eqo = [seq] {
+         std::vector<bool> v;
+         for (std::size_t i = 0; i < seq->size(); ++i) v.push_back(seq->position(i) == seq->position(i + 1) or not (seq->position(i + 1) != seq->position(i)));
+         return v;
+      };
+      sj.bend = [seq] {
+         return std::vector<bool>{ seq->begin() == seq->position(0), seq->end() == seq->position(seq->size()), seq->begin() == seq->end() };
       };
       sj.hsize = sj.size;
       sj.hat = sj.at;
@@ -334,11 +360,24 @@ namespace {
          hat.push(guarded(sj, [&] { return sj.hat(i); }));
       }
       o.set("at", at).set("atmax", guarded(sj, [&] { return sj.at(std::numeric_limits<std::size_t>::max()); }));
+      // positions far beyond size() that a narrowed or wrapped index would map into the bounds (sizes stay below 2^8)
+      auto huge = Value::array();
+      for (int k : {8, 16, 31, 32, 33, 48, 63})
+         for (std::size_t j : {std::size_t{0}, n == 0 ? std::size_t{1} : n - 1})
+            huge.push(guarded(sj, [&] { return sj.at((std::size_t{1} << k) + j); }));
+      huge.push(guarded(sj, [&] { return sj.at(std::numeric_limits<std::size_t>::max() - 1); }));
+      huge.push(guarded(sj, [&] { return sj.at((std::size_t{1} << 63) - 1); }));
+      o.set("huge", huge);
       try { for (auto p : sj.iter()) it.push(id_of(sj, p)); } catch (const std::logic_error&) { it.push(-1); }
       auto rit = Value::array(), pit = Value::array();
       try { for (auto p : sj.riter()) rit.push(id_of(sj, p)); } catch (const std::logic_error&) { rit.push(-1); }
       try { for (auto p : sj.post()) pit.push(id_of(sj, p)); } catch (const std::logic_error&) { pit.push(-1); }
       o.set("riter", rit).set("post", pit);
+      auto rpit = Value::array();
+      try { for (auto p : sj.rpost()) rpit.push(id_of(sj, p)); } catch (const std::logic_error&) { rpit.push(-1); }
+      o.set("rpost", rpit);
+      auto bools = [](const std::vector<bool>& v) { auto a = Value::array(); for (bool b : v) a.push(b); return a; };
+      o.set("eqd", bools(sj.eqd())).set("eqo", bools(sj.eqo())).set("bend", bools(sj.bend()));
       o.set("iter", it).set("steps", sj.steps()).set("hsize", static_cast<long>(sj.hsize())).set("hat", hat);
       return o;
    }
@@ -358,7 +397,7 @@ namespace {
 
    std::string first_difference(const Value& e, const Value& g)
    {
-      for (auto f : {"size", "empty", "at", "atmax", "iter", "riter", "post", "steps", "hsize", "hat"})
+      for (auto f : {"size", "empty", "at", "atmax", "huge", "iter", "riter", "post", "rpost", "eqd", "eqo", "bend", "steps", "hsize", "hat"})
          if (not vj::equal(e.at(f), g.at(f))) return f;
       return "other";
    }
@@ -445,7 +484,7 @@ namespace {
    {
       // -- sequences of every implementation, sizes 0..5
       for (auto& kind : kinds()) {
-         for (std::size_t n : {0u, 1u, 3u, 5u}) {
+         for (std::size_t n : {0u, 1u, 3u, 5u, 17u, 40u}) {
             auto sj = make_subject(kind, n);
             if (sj == nullptr) continue;
             auto nw = Value::object();
@@ -467,7 +506,7 @@ namespace {
                ev.set("e", "push").set("r", static_cast<long>(k)).set("o", observe(*sj));
                std::cout << vj::dump(ev) << "\n";
             }
-            if (n != 5) continue;
+            if (n != 40) continue;
             break;
          }
       }
